@@ -17,17 +17,52 @@ use ::std::sync::Arc;
 
 pub use ::std::fs::Permissions;
 
-fn path_str(p: &Path) -> io::Result<String> {
-    let s = p
-        .to_str()
-        .ok_or_else(|| io::Error::from_raw_os_error(libc::EINVAL))?;
-    if s.as_bytes().contains(&0) {
+/// Simulated names are Rust strings; bytes that are not valid UTF-8 are
+/// carried through as private-use characters U+F780..U+F7FF so that names
+/// such as b".caf\xe9" exist in SimFs and come back byte-identical.
+pub fn enc_path(p: &Path) -> io::Result<String> {
+    use ::std::os::unix::ffi::OsStrExt;
+    let mut rest = p.as_os_str().as_bytes();
+    if rest.contains(&0) {
         return Err(io::Error::new(
             io::ErrorKind::InvalidInput,
             "file name contained an unexpected NUL byte",
         ));
     }
-    Ok(s.to_string())
+    let mut out = String::with_capacity(rest.len());
+    loop {
+        match ::std::str::from_utf8(rest) {
+            Ok(s) => {
+                out.push_str(s);
+                return Ok(out);
+            }
+            Err(e) => {
+                let (good, bad) = rest.split_at(e.valid_up_to());
+                out.push_str(::std::str::from_utf8(good).unwrap());
+                out.push(char::from_u32(0xF700 + bad[0] as u32).unwrap());
+                rest = &bad[1..];
+            }
+        }
+    }
+}
+
+pub fn dec_name(s: &str) -> OsString {
+    use ::std::os::unix::ffi::OsStringExt;
+    let mut bytes = Vec::with_capacity(s.len());
+    for c in s.chars() {
+        let u = c as u32;
+        if (0xF780..=0xF7FF).contains(&u) {
+            bytes.push((u - 0xF700) as u8);
+        } else {
+            let mut b = [0u8; 4];
+            bytes.extend_from_slice(c.encode_utf8(&mut b).as_bytes());
+        }
+    }
+    OsString::from_vec(bytes)
+}
+
+fn path_str(p: &Path) -> io::Result<String> {
+    enc_path(p)
 }
 
 fn eio<T>(e: i32) -> io::Result<T> {
@@ -593,8 +628,8 @@ impl Metadata {
             Metadata::Real(m) => FileType::from_real(m.file_type()),
             Metadata::Sim(s) => FileType {
                 dir: s.is_dir,
-                file: !s.is_dir,
-                symlink: false,
+                file: !s.is_dir && !s.is_symlink,
+                symlink: s.is_symlink,
             },
         }
     }
@@ -616,7 +651,7 @@ impl Metadata {
     pub fn st_mode(&self) -> u32 {
         match self {
             Metadata::Real(m) => ::std::os::unix::fs::MetadataExt::mode(m),
-            Metadata::Sim(s) => s.mode | if s.is_dir { libc::S_IFDIR } else { libc::S_IFREG },
+            Metadata::Sim(s) => s.mode | if s.is_dir { libc::S_IFDIR } else if s.is_symlink { libc::S_IFLNK } else { libc::S_IFREG },
         }
     }
     pub fn permissions(&self) -> Permissions {
@@ -758,13 +793,13 @@ impl DirEntry {
     pub fn path(&self) -> PathBuf {
         match self {
             DirEntry::Real(d) => d.path(),
-            DirEntry::Sim { dir, name, .. } => dir.join(name),
+            DirEntry::Sim { dir, name, .. } => dir.join(dec_name(name)),
         }
     }
     pub fn file_name(&self) -> OsString {
         match self {
             DirEntry::Real(d) => d.file_name(),
-            DirEntry::Sim { name, .. } => OsString::from(name),
+            DirEntry::Sim { name, .. } => dec_name(name),
         }
     }
     pub fn file_type(&self) -> io::Result<FileType> {
@@ -784,8 +819,10 @@ impl DirEntry {
             DirEntry::Sim { sim, proc, .. } => {
                 let ctx = sim_ctx(sim, *proc);
                 let p = path_str(&self.path())?;
+                let mut req = Req::path(&p);
+                req.arg = 1;
                 ctx.sim
-                    .call(&ctx, K::FstatAt, Req::path(&p), true, |st, p, r| k::k_stat(st, p, r))
+                    .call(&ctx, K::FstatAt, req, true, |st, p, r| k::k_stat(st, p, r))
                     .map(Metadata::Sim)
             }
         }
@@ -941,8 +978,10 @@ pub fn symlink_metadata<P: AsRef<Path>>(path: P) -> io::Result<Metadata> {
         None => ::std::fs::symlink_metadata(path).map(Metadata::Real),
         Some(ctx) => {
             let p = path_str(path)?;
+            let mut req = Req::path(&p);
+            req.arg = 1;
             ctx.sim
-                .call(&ctx, K::Lstat, Req::path(&p), true, |st, p, r| k::k_stat(st, p, r))
+                .call(&ctx, K::Lstat, req, true, |st, p, r| k::k_stat(st, p, r))
                 .map(Metadata::Sim)
         }
     }
@@ -1129,6 +1168,30 @@ pub fn copy<P: AsRef<Path>, Q: AsRef<Path>>(from: P, to: Q) -> io::Result<u64> {
     let n = io::copy(&mut reader, &mut writer)?;
     writer.set_permissions(perm)?;
     Ok(n)
+}
+
+/// `std::os::unix::fs::symlink` look-alike for the harness and the
+/// conformance self-test (the library itself never creates links).
+pub fn symlink<P: AsRef<Path>, Q: AsRef<Path>>(target: P, link: Q) -> io::Result<()> {
+    let (target, link) = (target.as_ref(), link.as_ref());
+    match k::current() {
+        None => ::std::os::unix::fs::symlink(target, link),
+        Some(ctx) => {
+            let t = path_str(target)?;
+            let l = path_str(link)?;
+            let mut st = ctx.sim.lock();
+            match st.fs.resolve(&l) {
+                Err(e) => eio(e),
+                Ok(r) if r.ino.is_some() => eio(libc::EEXIST),
+                Ok(r) if r.must_be_dir => eio(libc::ENOENT),
+                Ok(_) => {
+                    let now = st.fs.now;
+                    st.fs.plant_symlink(&l, &t, now);
+                    Ok(())
+                }
+            }
+        }
+    }
 }
 
 pub fn canonicalize<P: AsRef<Path>>(path: P) -> io::Result<PathBuf> {
